@@ -70,6 +70,10 @@ type msgWriter struct {
 // is begun.
 type msgWriteCloser struct {
 	mw *msgWriter
+	// ctx is the context of this message. mw.ctx belongs to whichever message
+	// is current: a writer used after its message has ended must not read it
+	// while another goroutine begins the next message.
+	ctx context.Context
 	// closed is guarded by mw.writeMu.
 	closed bool
 }
@@ -108,7 +112,7 @@ func (c *Conn) writer(ctx context.Context, typ MessageType) (io.WriteCloser, err
 	if err != nil {
 		return nil, err
 	}
-	return &msgWriteCloser{mw: c.msgWriter}, nil
+	return &msgWriteCloser{mw: c.msgWriter, ctx: ctx}, nil
 }
 
 func (c *Conn) write(ctx context.Context, typ MessageType, p []byte) (int, error) {
@@ -166,7 +170,7 @@ func (mw *msgWriter) putFlateWriter() {
 // Write writes the given bytes to the WebSocket connection.
 func (w *msgWriteCloser) Write(p []byte) (_ int, err error) {
 	mw := w.mw
-	err = mw.writeMu.lock(mw.ctx)
+	err = mw.writeMu.lock(w.ctx)
 	if err != nil {
 		return 0, fmt.Errorf("failed to write: %w", err)
 	}
@@ -211,7 +215,7 @@ func (w *msgWriteCloser) Close() (err error) {
 	defer errd.Wrap(&err, "failed to close writer")
 
 	mw := w.mw
-	err = mw.writeMu.lock(mw.ctx)
+	err = mw.writeMu.lock(w.ctx)
 	if err != nil {
 		return err
 	}
